@@ -41,6 +41,10 @@ def foreign_entries(snap):
     return out
 
 
+def w_is_module(w):
+    return w.knobs.get("api", "object") == "module"
+
+
 def stamp(entry):
     return max(entry[1], entry[2])
 
@@ -150,6 +154,11 @@ class Oracle:
             return self._v("19f-open" if self.c19 else "18a", "the cache could not be opened: %r" % (obs.exc,), obs)
         if obs.fetches:
             return self._v("18b" if not self.c19 else "19f", "opening the cache contacted a resource: %r" % (obs.fetches,), obs)
+        if not self.c19 and self.persisted_max is not None and obs.kind == "REOPEN":
+            arg = obs.op.get("size") or w.knobs["max_bytes"]
+            if not any(abs(obs.max_bytes - x) <= 2 for x in (self.persisted_max, arg)):
+                return self._v("18e", "after reopen the configured size is %d; the persisted configuration says %d and the "
+                               "constructor argument %d" % (obs.max_bytes, self.persisted_max, arg), obs)
         self.max_bytes = obs.max_bytes
         self.persisted_max = obs.max_bytes
         reg = {i for i, b in enumerate(obs.in_cache) if b}
@@ -428,6 +437,8 @@ class Oracle:
                 # over-eviction is counted, not flagged
                 freed_needed = sum(e[0] for e in pre_files.values()) + 0
                 self.probe("ops_with_eviction")
+        if obs.max_bytes != self.max_bytes:
+            self.persisted_max = obs.max_bytes  # an enlargement is persisted
         self.max_bytes = obs.max_bytes
         # --- use refreshes recency (18f-iii) ---------------------------------------------
         if not self.c19 and strict and obs.back_in_op == 0:
@@ -571,6 +582,16 @@ class Oracle:
             return None
         post_files = cache_files(obs.post)
         if obs.exc is not None:
+            import json as _json
+            if (self.c19 and self.tainted and w_is_module(self.w) and isinstance(obs.exc, ValueError)
+                    and not isinstance(obs.exc, _json.JSONDecodeError)
+                    and sum(e[0] for e in post_files.values()) > (self.persisted_max or 0) - 2):
+                # module-level purge = delete_cache + create_cache: the re-creation adopted orphaned complete
+                # files of an earlier failed request and the directory exceeds its limit: the documented error
+                self.probe("reopen_oversize_valueerror")
+                self.registered = None
+                self.ended = True
+                return None
             return self._v("18d" if not self.c19 else "19d-poison", "purge() raised %r" % (obs.exc,), obs)
         new_reg = {i for i, b in enumerate(obs.in_cache) if b}
         if new_reg and not self.c19:
@@ -582,11 +603,18 @@ class Oracle:
                 return self._v("18d", "len(cache)=%d after purge" % obs.length, obs)
         # (module-level purge re-creates the cache object: under faults it may adopt orphaned complete files)
         self.registered = new_reg if self.c19 else set()
+        if w_is_module(self.w) and obs.max_bytes is not None:
+            # module-level purge re-creates the cache object, which re-reads the persisted configuration
+            self.max_bytes = obs.max_bytes
+            self.persisted_max = obs.max_bytes
         return None
 
     def _check_passive(self, obs):
-        """TOUCH / AGE / USER_READ / FOREIGN / RES_* / VALIDATOR / DRAIN: harness-side operations."""
+        """TOUCH / AGE / USER_READ / FOREIGN / RES_* / VALIDATOR / DRAIN / EDIT_CONFIG: harness-side operations."""
         if obs.crashed:
             self.registered = None
             self.tainted = True
+        elif obs.kind == "EDIT_CONFIG" and obs.result is not None:
+            self.persisted_max = obs.result  # takes effect at the next open
+            self.probe("config_edited")
         return None
